@@ -32,6 +32,11 @@ pub fn name_shapes() -> Vec<NameShape> {
 		NameShape(vec![("CN", "teletex", Asn1Type::T61STRING), ("O", "bmp org", Asn1Type::BMPSTRING), ("OU", "universal", Asn1Type::UNIVERSALSTRING)]),
 		NameShape(vec![("1.2.3.4.5", "custom oid", u), ("emailAddress", "ca@example.com", Asn1Type::IA5STRING), ("serialNumber", "12345", p), ("CN", "custom", u)]),
 		NameShape(vec![]),
+		// a type repeated with the *same* value (adjacent and not)
+		NameShape(vec![("DC", "lab", Asn1Type::IA5STRING), ("DC", "lab", Asn1Type::IA5STRING), ("CN", "same dc", u)]),
+		NameShape(vec![("O", "Lab", u), ("OU", "Ops", u), ("OU", "Ops", u), ("CN", "same ou", u)]),
+		NameShape(vec![("OU", "Ops", u), ("O", "Lab", u), ("OU", "Ops", u)]),
+		NameShape(vec![("CN", "twin", u), ("CN", "twin", u)]),
 	]
 }
 
@@ -216,6 +221,13 @@ fn import_case(s: &mut Suite, origin: &str, der: &[u8], generated_from: Option<&
 	if real == "panic" {
 		s.rep.violate("C10:panic:import", "from_ca_cert_der panics", format!("{}\n{}", line, crate::last_panic()));
 	}
+	// C17: a certificate rcgen generated from an importable parameter set must import
+	if let (Some(g), None) = (generated_from, &params) {
+		if s.prop == "C17" && real != "panic" {
+			let class = match &g.ca { Ca::Ca(Some(n)) => format!("path-length-{}", n), Ca::Ca(None) => "ca-unconstrained".to_string(), _ => "not-ca".to_string() };
+			s.rep.violate(&format!("C17:import-refused:{}", class), "a certificate generated by rcgen from a supported parameter set is refused by from_ca_cert_der", format!("generated from: {}\n{}\nreal: {}\nmodel: {}", g.sexp(), line, real, model));
+		}
+	}
 	// C17 clauses: imported fields equal the parameters the certificate was generated from
 	if let (Some(g), Some(p)) = (generated_from, &params) {
 		if s.prop == "C17" {
@@ -304,6 +316,36 @@ pub fn run(ctx: &mut Ctx, prop: &str) -> Report {
 			p.ku = if s.rng.chance(1, 2) { vec![] } else { vec![KeyUsagePurpose::KeyCertSign, KeyUsagePurpose::CrlSign, KeyUsagePurpose::DigitalSignature] };
 		}
 		gens.push(p);
+	}
+	if prop == "C17" {
+		// every path length the type admits
+		for n in 0..=255u8 {
+			let mut p = PCert::default_like();
+			p.ca = Ca::Ca(Some(n));
+			gens.push(p);
+		}
+		// every key usage alone, and all together
+		for k in ALL_KU.iter() {
+			let mut p = PCert::default_like();
+			p.ca = Ca::Ca(None);
+			p.ku = vec![k.clone()];
+			gens.push(p);
+		}
+		let mut p = PCert::default_like();
+		p.ca = Ca::Ca(None);
+		p.ku = ALL_KU.to_vec();
+		gens.push(p);
+		// IPv4 / IPv6 subtrees at boundary prefix lengths, permitted and excluded, with other kinds
+		for (a, b) in [(0u8, 0u8), (8, 32), (24, 48), (31, 127), (32, 128)] {
+			let mut p = PCert::default_like();
+			p.ca = Ca::Ca(None);
+			p.nc = Some((
+				vec![Subtree::Ip4p([10, 1, 2, 3], a), Subtree::Ip6p([0x20, 0x01, 0x0d, 0xb8, 0, 0, 0, 0, 0, 0, 0, 0, 0, 0, 0, 1], b), Subtree::Dns("example.com".into())],
+				vec![Subtree::Ip6p([0xfd, 0, 0x12, 0x34, 0, 0, 0, 0, 0, 0, 0, 0, 0, 0, 0, 0], b), Subtree::Ip4p([192, 0, 2, 0], a)],
+			));
+			gens.push(p);
+		}
+		s.rep.exhaustive.push("all 256 path lengths; each of the 9 key usages alone and all together; IPv4/IPv6 subtrees at 5 boundary prefix pairs, permitted and excluded".into());
 	}
 	let algs: Vec<String> = keys::build_algs().iter().map(|a| alg_name(a).to_string()).collect();
 	for (k, p) in gens.iter().enumerate() {
@@ -399,7 +441,7 @@ pub fn run(ctx: &mut Ctx, prop: &str) -> Report {
 			}
 		}
 	}
-	s.rep.exhaustive.push("OpenSSL CA name-shape sweep: 9 shapes x 3 key types x SKI present/absent".into());
+	s.rep.exhaustive.push("OpenSSL CA name-shape sweep: 13 shapes (incl. a type repeated with an identical value) x 3 key types x SKI present/absent".into());
 	let req = s.drv.requests;
 	s.rep.add("driver_requests", req);
 	s.rep
